@@ -6,7 +6,8 @@ An arc image is a bin archive whose *content* `K` — data bytes, string cells a
   * a label `Info` whose lowest address starts a table of 16-byte records
     `(string cell: name, u32 index, u32 size, u32 offset)`, one per file, in any order,
   * either a 0x60-byte zero header (then offsets are relative to its end) or a non-zero first
-    data word (then offsets are relative to the start of the data),
+    data word (then offsets are relative to the start of the data); when no file has a body the
+    question does not arise and only the first data word has to exist,
   * for every record the file's bytes at `data[offset + padding ..][.. size]`, wherever that is.
 The witnesses (`countAddr`, `infoAddr`) make every clause decidable, so the same definition
 judges the images the harness builds.  "Lowest address" is what makes the lookup deterministic
@@ -55,6 +56,12 @@ def HeaderOk (K : Content) (padded : Bool) : Prop :=
 
 def padding (padded : Bool) : Nat := if padded then 0x60 else 0
 
+/-- The header question is settled (`HeaderOk`), or it does not arise: no file has a body — an
+arc without records or with empty files only never uses an offset, so any data region whose first
+word can be read will do (e.g. the empty unpadded arc: the count word 0 alone). -/
+def HeaderFits (K : Content) (files : List (Bytes × Bytes)) (padded : Bool) : Prop :=
+  HeaderOk K padded ∨ ((u32le K.data 0).isSome ∧ ∀ f ∈ files, f.2 = [])
+
 /-- Record `i` of the table at `infoAddr` names `name` (a string cell) and declares `size`
 bytes at offset `off`; its index word is inside the data. -/
 def RecordAt (K : Content) (infoAddr i : Nat) (name : Bytes) (size off : Nat) : Prop :=
@@ -87,7 +94,7 @@ instance (K : Content) (padded : Bool) (infoAddr i : Nat) (f : Bytes × Bytes) :
 def ConformsArcAt (K : Content) (files : Files) (padded : Bool) (countAddr infoAddr : Nat) : Prop :=
   StringsFunctional K ∧
   LowestLabel K COUNT countAddr ∧ LowestLabel K INFO infoAddr ∧
-  HeaderOk K padded ∧
+  HeaderFits K files padded ∧
   u32le K.data countAddr = some files.length ∧
   ∀ i, (h : i < files.length) → FileOk K padded infoAddr i files[i]
 
@@ -95,6 +102,9 @@ instance (K : Content) (padded : Bool) : Decidable (HeaderOk K padded) := by
   unfold HeaderOk; split
   · exact inferInstance
   · split <;> exact inferInstance
+
+instance (K : Content) (files : Files) (padded : Bool) : Decidable (HeaderFits K files padded) := by
+  unfold HeaderFits; exact inferInstance
 
 instance (K : Content) (files : Files) (padded : Bool) (ca ia : Nat) :
     Decidable (ConformsArcAt K files padded ca ia) := by
